@@ -297,6 +297,11 @@ def check_factories(ctx):
                         continue
                     ctx.ob("R10.4", "%s.%s:rebinds-%s" % (k.q, meth, x), used <= {x}, found=ast.unparse(st), required="%s re-bound only to an upgrade of itself" % x,
                            mod=k.mod, node=st, sig="rebind-" + x)
+                    v = st.value
+                    if used <= {x} and isinstance(v, ast.IfExp) and isinstance(v.test, ast.Call) and ast.unparse(v.test.func) == "isinstance" and len(v.test.args) == 2:
+                        K = ast.unparse(v.test.args[1])
+                        shape.match(ctx, "R10.4", "%s.%s:upgrades-%s" % (k.q, meth, x), v, ["x if isinstance(x, K) else K(x)"], {x: "x", K: "K"}, mod=k.mod, node=st, sig="upgrade-" + x,
+                                    required="kept when it already is a %s, converted otherwise (an int stands for that many wires)" % K)
             if meth == "permutation" and len(a) > 1:
                 for st in fn.body:
                     if isinstance(st, ast.If) and any(isinstance(b, ast.Assign) and ast.unparse(b.targets[0]) == a[1] for b in st.body):
